@@ -6,4 +6,7 @@ void conf_register(int count, int override_null);
 void conf_tree_reset(void);
 void conf_tree_add(const char *path, const unsigned char *data, size_t len);
 int  conf_tree_get(const char *path, const unsigned char **data, size_t *len);
+uint64_t conf_trace_digest(int from);
+int conf_trace_count(void);
+void conf_set_index_checks(int on);
 #endif
